@@ -3,7 +3,7 @@ key = function | kind | operation(operands);  value = (class, reason).
 class: peer = reachable from peer input, config = configuration / local API input only, local = internal invariant."""
 
 TABLE = {
-    '<&[bool] as rodbus::common::traits::Serialize>::serialize | assert | Overflow:Shl(1, (Iterator>::next().0. as u8))':
+    '<&[bool] as rodbus::common::traits::Serialize>::serialize | assert | Overflow:Shl(1, (Iterator>::next(). as u8))':
         ('peer', 'bit position < 8: the position restarts for every byte (C01/R01.13, C03/R03.7)'),
     '<rodbus::client::requests::write_multiple::WriteMultipleIterator<T> as core::iter::traits::iterator::Iterator>::next | assert | Overflow:Add(*self.pos, 1)':
         ('peer', 'pos < range.count <= 65535 here (the pos == count guard returned None before), so pos + 1 fits u16'),
@@ -61,13 +61,13 @@ TABLE = {
         ('peer', 'range produced by format_generic from WriteCursor positions inside self.buffer (start <= end <= buffer.len())'),
     'rodbus::common::frame::FrameWriter::format_generic | index | index(*self.buffer, agg)':
         ('peer', 'range produced by format_generic from WriteCursor positions inside self.buffer (start <= end <= buffer.len())'),
-    'rodbus::common::frame::FrameWriter::format_reply | index | index(*self.buffer, FrameWriter::format_generic().0)':
+    'rodbus::common::frame::FrameWriter::format_reply | index | index(*self.buffer, FrameWriter::format_generic())':
         ('peer', 'range produced by format_generic from WriteCursor positions inside self.buffer (start <= end <= buffer.len())'),
     'rodbus::common::frame::FrameWriter::format_request | index | index(*self.buffer, FrameWriter::format_generic())':
         ('peer', 'range produced by format_generic from WriteCursor positions inside self.buffer (start <= end <= buffer.len())'),
     'rodbus::common::phys::PhysLayer::write::{closure#0} | arith-trait | <tokio::time::instant::Instant as core::ops::arith::Add<core::time::Duration>>::add(*self.layer.as Serial.2.as Some.0, *self.layer.as Serial.1)':
         ('config', 'last activity + inter-character delay (<= 2 ms, derived from the configured baud rate)'),
-    'rodbus::common::phys::calculate_inter_character_delay | arith-trait | <core::time::Duration as core::ops::arith::Div<u32>>::div(Duration::from_secs(), SerialPort>::baud_rate().0)':
+    'rodbus::common::phys::calculate_inter_character_delay | arith-trait | <core::time::Duration as core::ops::arith::Div<u32>>::div(Duration::from_secs(), SerialPort>::baud_rate())':
         ('config', 'serial timing from the configured baud rate (configuration; note O2: a baud rate of 0 divides by zero - not peer input)'),
     'rodbus::common::phys::calculate_inter_character_delay | arith-trait | <core::time::Duration as core::ops::arith::Div<u32>>::div(Duration>>::mul(), 10)':
         ('config', 'serial timing from the configured baud rate (configuration; note O2: a baud rate of 0 divides by zero - not peer input)'),
@@ -99,6 +99,6 @@ TABLE = {
         ('local', 'self.rx.recv() cannot yield None while self.tx (a Sender kept in the same struct) is alive'),
     'rodbus::tcp::server::SessionTracker::get_next_id | assert | Overflow:Add(*self.id, 1)':
         ('peer', 'u128 session counter + 1 per accepted connection'),
-    'rodbus::types::RegisterIterator::collect_vec | assert | Overflow:Add(self.range.start, (Iterator>::next().0. as u16))':
+    'rodbus::types::RegisterIterator::collect_vec | assert | Overflow:Add(self.range.start, (Iterator>::next(). as u16))':
         ('peer', 'AddressRange::try_from guarantees start + (count - 1) <= 65535 and pos < count here (C01/R01.5: AddressRange is constructed only by try_from)'),
 }
